@@ -330,7 +330,14 @@ int main (int argc, char *argv[])
 	{
 	  storage.show_drive_configuration(std::cerr);
 	}
-      return instance->invoke(storage, ctx, extra_args) ? 0 : 1;
+      bool ok = instance->invoke(storage, ctx, extra_args);
+      std::cout.flush();
+      if (!std::cout)
+	{
+	  std::cerr << "error: failed to write to standard output\n";
+	  ok = false;
+	}
+      return ok ? 0 : 1;
     }
   catch (std::exception& e)
     {
